@@ -205,6 +205,55 @@ class Gen(object):
 
 
 # ------------------------------------------------------------------ configurations
+class SpecConfig(object):
+    """Reference reading of a configuration, written from the documentation of anf.transform /
+    ASTEdgePattern and independent of the implementation's matcher: rules are tried in order, the
+    first matching one governs, no rule = do not transform; a pattern matches when the parent is an
+    instance of the parent slot, the field name is EQUAL to the field slot and the child is an instance
+    of the child slot (ANY matches anything).  The oracle judges `every position the configuration asks
+    to be named` with this reading, so an implementation that applies a configuration differently
+    (e.g. matches field names loosely) is reported with the concrete (program, configuration)."""
+
+    def __init__(self, config, anf):
+        self.anf = anf
+        if config is None:
+            config = [(anf.ASTEdgePattern(anf.ANY, anf.ANY, (ast.Constant, ast.Name)), anf.LEAVE),
+                      (anf.ASTEdgePattern(anf.ANY, anf.ANY, ast.expr), anf.REPLACE)]
+        self.rules = config
+
+    def should(self, parent, field, child):
+        ANY = self.anf.ANY
+        for pat, act in self.rules:
+            if pat is not ANY:
+                pp, pf, pc = tuple(pat)
+                if not (pp is ANY or isinstance(parent, pp)):
+                    continue
+                if not (pf is ANY or (isinstance(pf, str) and field == pf)):
+                    continue
+                if not (pc is ANY or isinstance(child, pc)):
+                    continue
+            if act is self.anf.REPLACE:
+                return True
+            if act is self.anf.LEAVE:
+                return False
+            return bool(act(parent, field, child))
+        return False
+
+
+def _field_names():
+    names = set()
+    for x in vars(ast).values():
+        if isinstance(x, type) and issubclass(x, ast.AST):
+            names.update(getattr(x, '_fields', ()))
+    return sorted(names)
+
+
+# every AST field name that contains, or is contained in, another AST field name
+# (value/values, arg/args/kwonlyargs, elt/elts, key/keys, op/ops, target/targets, name/names, body/finalbody, ...)
+NESTED_FIELDS = sorted({a for a in _field_names() for b in _field_names() if a != b and (a in b or b in a)})
+# the ones that name an operand position of the fragment (where a loose match changes the outcome)
+NESTED_OPERAND_FIELDS = ['value', 'values', 'args', 'elts', 'keys', 'target', 'targets', 'body', 'test', 'items', 'exc']
+
 def gen_config(rnd, anf):
     """None (default) or a random list of (pattern, directive)."""
     k = rnd.random()
@@ -229,6 +278,15 @@ def gen_config(rnd, anf):
         return 'ast.' + x.__name__
     for _ in range(rnd.randint(0, 3)):
         act = rnd.random() < 0.5
+        if rnd.random() < 0.3:
+            # field names nested in one another (a matcher comparing them loosely confuses them),
+            # with ANY and with concrete parent / child slots
+            f = rnd.choice(NESTED_FIELDS if rnd.random() < 0.4 else [x for x in NESTED_OPERAND_FIELDS if x in NESTED_FIELDS])
+            p = anf.ANY if rnd.random() < 0.6 else rnd.choice(parents)
+            c = anf.ANY if rnd.random() < 0.6 else rnd.choice(childs)
+            rules.append((anf.ASTEdgePattern(p, f, c), anf.REPLACE if act else anf.LEAVE))
+            desc.append('(anf.ASTEdgePattern(%s, %s, %s), anf.%s)' % (nm(p), nm(f), nm(c), 'REPLACE' if act else 'LEAVE'))
+            continue
         if rnd.random() < 0.1:
             rules.append((anf.ANY, anf.REPLACE if act else anf.LEAVE))
             desc.append('(anf.ANY, anf.%s)' % ('REPLACE' if act else 'LEAVE'))
